@@ -14,6 +14,7 @@ package fox
 
 //@ func (*Router).getRoot props C04,C05,C06
 //@   requires fox != nil
+//@   noalloc @C16
 //@   modifies unlockedLoads[&fox.tree]
 //@   ghost-set return : unlockedLoads[&fox.tree] = unlockedLoads[&fox.tree] + (held[&fox.mu] ? 0 : 1)
 //@   ensures result == published[&fox.tree]
